@@ -280,6 +280,7 @@ def gen_spec(seed: int, config: str | None = None) -> dict:
         "pool": pool,
         "max_workers": max_workers,
         "cpu_count": cpu_count,
+        "container": rng.choice(["list", "list", "list", "tuple", "iterator", "generator"]),
         "pickle": bug.random() < 0.5,
         "pickable": rng.choice(["identity", "identity", "str"]),
         "extra_args": rng.choice([[], [], [1], ["a", 2]]),
@@ -460,6 +461,14 @@ def call_entry(spec: dict, payloads, parallel: bool, sink: list):
     kw["reraise"] = spec["reraise"]
     args = list(spec["extra_args"])
     entry = spec["entry"]
+    # the payloads as the caller has them: a list, a tuple, or something that can be walked only once
+    cont = spec.get("container", "list")
+    if cont == "tuple":
+        payloads = tuple(payloads)
+    elif cont == "iterator":
+        payloads = iter(list(payloads))
+    elif cont == "generator":
+        payloads = (p for p in list(payloads))
     if entry == "parproc":
         return pp.parproc(work, payloads, *args, max_workers=spec["max_workers"], **kw)
     if entry == "parallel_proc":
@@ -782,9 +791,9 @@ def shrink_candidates(spec: dict):
             s = copy.deepcopy(spec)
             s["payloads"][i]["raises"] = s["payloads"][i].pop("raises_late")
             yield s
-    for key, simple in (("entry", "parproc"), ("pool", "process"), ("pickle", False), ("pickable", "identity"),
+    for key, simple in (("entry", "parproc"), ("pool", "process"), ("pickle", False), ("pickable", "identity"), ("container", "list"),
                         ("extra_args", []), ("extra_kwargs", {}), ("summary", False), ("verbose", False)):
-        if spec[key] != simple:
+        if spec.get(key, simple) != simple:
             s = copy.deepcopy(spec)
             s[key] = simple
             if key == "entry":
